@@ -8,3 +8,24 @@ func withJitter(seed uint64, maxUs uint64, f func()) {
 	defer verifhook.Disable()
 	f()
 }
+
+// runExec runs a case's executor; a case carrying a "jit" field runs with the scheduling jitter armed, so that the
+// workers of the pipeline under test finish far out of order (stragglers included) and the order-restoring stages
+// of the property's own entry point are exercised, not only those of the C12 streams
+func runExec(ex func(*RNG, *Case), r *RNG, c *Case) {
+	if j := c.Get("jit"); j != "" && j != "0" {
+		withJitter(uint64(atoi(j)), 400, func() { ex(r, c) })
+		return
+	}
+	ex(r, c)
+}
+
+// manyRecords decides (1 case in `one`) that a case gets many short records and jitter; returns the record count
+func manyRecords(r *RNG, c *Case, one int) int {
+	if !r.Chance(1, one) {
+		return 0
+	}
+	c.SetInt("jit", 1+r.Intn(1000000))
+	c.Tag("many-records-jitter")
+	return r.Range(120, 320)
+}
